@@ -535,6 +535,11 @@ func (rn *runner) exec(evs []hx.Group, count bool) (obsAll []hx.Group, fails []o
 	return
 }
 
+// a failure that a listed finding explains
+func isTagged(msg string) bool {
+	return strings.HasPrefix(msg, "empty-level") || strings.HasPrefix(msg, "F18-") || strings.HasPrefix(msg, "F17-")
+}
+
 func (rn *runner) run(evs []hx.Group) {
 	caseNo := rn.out.N
 	obsAll, fails, refused := rn.exec(evs, true)
@@ -542,7 +547,7 @@ func (rn *runner) run(evs []hx.Group) {
 	// same history without the refused first packets, on the implementation again
 	unexplained := false
 	for _, f := range fails {
-		if !strings.Contains(f.msg, ": (") && !strings.HasPrefix(f.msg, "C11:") && !strings.HasPrefix(f.msg, "STUCK") {
+		if !isTagged(f.msg) && !strings.HasPrefix(f.msg, "C11:") && !strings.HasPrefix(f.msg, "STUCK") {
 			unexplained = true
 		}
 	}
@@ -561,7 +566,7 @@ func (rn *runner) run(evs []hx.Group) {
 			still[f.msg]++
 		}
 		for i, f := range fails {
-			if strings.Contains(f.msg, ": (") || strings.HasPrefix(f.msg, "STUCK") {
+			if isTagged(f.msg) || strings.HasPrefix(f.msg, "STUCK") {
 				continue
 			}
 			if still[f.msg] > 0 {
